@@ -42,6 +42,10 @@ class Object(object):
     def _vbus_register(self, conn, path):
         from vlib import simloop
         if hasattr(conn, 'objects'):
+            other = conn.objects.get(path)
+            if other is not None and other is not self:
+                # dbus-python (libdbus dbus_connection_register_object_path): a path can have one handler per connection
+                raise KeyError("Can't register the object-path handler for %r: there is already a handler" % (path,))
             conn.objects[path] = self
         # the process (main-loop context) that exported the object handles calls to it
         self._vbus_ctx = simloop.current()
